@@ -481,6 +481,17 @@ class RefSem:
         st.deployed = True
         st.out[("deploy_failed", "error")] = (IMPOSSIBLE, None)
         # 2. enabling
+        if getattr(s, "stop_mode", None) == "enabling" and s.field("stop_if") is not None:
+            # construction in which the stop condition fires while the step still waits for its `enabled` value: the step is
+            # closed; it was neither enabled nor disabled
+            sstatus, sv = self.avail({"stop_if": s.field("stop_if")})
+            if sstatus == AVAIL and sv.get("stop_if") not in (False, None, ABSENT, "false"):
+                st.out[("closed", "result")] = (AVAIL, {"cancelled": True, "close_requested": False})
+                st.out[("enabling", "resolved")] = (IMPOSSIBLE, None)
+                st.out[("disabled", "output")] = (IMPOSSIBLE, None)
+                st.set_all(PLUGIN_OUTS, IMPOSSIBLE)
+                st.why = "stopped before start"
+                return st
         status, en = self.avail({"enabled": s.field("enabled")} if s.field("enabled") is not None else {})
         if status != AVAIL:
             return stuck(status, "enabled input " + status)
